@@ -473,36 +473,28 @@ def _check_once(claim, hyps, region_conds=(), timeout_ms=20000, want_model=True,
     return 'unknown', 'z3:%s cvc5:%s' % (s.reason_unknown(), r2), None
 
 
+def _cvc5_limits():
+    import resource
+    resource.setrlimit(resource.RLIMIT_AS, (6 * 1024 ** 3, 6 * 1024 ** 3))
+
+
 def _cvc5_check(solver, timeout_s=30):
-    """the same query (SMT-LIB text of the z3 solver) decided by cvc5 1.4 through its Python API (the Debian CLI build
-    has no libpoly, hence no --nl-cov)"""
+    """the same query (SMT-LIB text of the z3 solver) decided by cvc5 1.4 (Python wheel; the Debian CLI build has no
+    libpoly, hence no --nl-cov) in a CHILD process: hard wall-clock timeout and a 6 GB address-space limit"""
+    import sys
     t0 = time.time()
     STATS['cvc5_calls'] += 1
     try:
-        import cvc5
         txt = ('(set-logic QF_UFNRA)\n' if USE_UF[0] else '(set-logic QF_NRA)\n') + solver.to_smt2()
         txt = txt.replace('(set-info :status unknown)', '')
-        tm = cvc5.TermManager()
-        slv = cvc5.Solver(tm)
-        slv.setOption('tlimit-per', str(int(timeout_s * 1000)))
-        try:
-            slv.setOption('nl-cov', 'true')
-        except Exception:      # noqa: BLE001
-            pass
-        ps = cvc5.InputParser(slv)
-        ps.setStringInput(cvc5.InputLanguage.SMT_LIB_2_6, txt, 'leaf')
-        sm = ps.getSymbolManager()
-        ans = None
-        while True:
-            c = ps.nextCommand()
-            if c.isNull():
-                break
-            o = c.invoke(slv, sm).strip()
-            if o in ('sat', 'unsat', 'unknown'):
-                ans = o
-        return ans or 'error:no answer'
+        root = os.path.dirname(os.path.dirname(os.path.abspath(__file__)))
+        p = subprocess.run([sys.executable, '-m', 'fvverif.cvc5worker', str(int(timeout_s * 1000))], input=txt,
+                           capture_output=True, text=True, timeout=timeout_s + 3, cwd=root, preexec_fn=_cvc5_limits)
+        out = (p.stdout or '').strip().splitlines()
+        return out[-1] if out else 'error:%s' % (p.stderr or '')[-120:]
+    except subprocess.TimeoutExpired:
+        return 'timeout'
     except Exception as e:   # noqa: BLE001
         return 'error:%s' % str(e)[:200]
     finally:
         STATS['cvc5_seconds'] += time.time() - t0
-
